@@ -20,7 +20,8 @@ RULE = ("matrices: exhaustive 0/1 matrices (quick <= 3x4 and 4x3, thorough <= 3x
         "code show: all 3x5 matrices, every multiset of 4 rows over 5 columns in one arrangement, 'deep' planted "
         "matrices (chains of overlapping intervals, nested and straddling intervals, 0-2 flips) with 5-7 columns "
         "against the reference and with 8-12 columns (planted order certified by c1p_check => True is the proved "
-        "verdict; every returned order checked), tall near-miss matrices (7-10 rows, 5-9 columns, 1-3 flips), the same "
+        "verdict; every returned order checked), 'wrap' matrices (7-10 rows, 6-12 columns: chain of overlapping intervals "
+        "plus nested intervals sharing an endpoint, 0-1 flips: depth >= 2 single-child wrappers), tall near-miss matrices (7-10 rows, 5-9 columns, 1-3 flips), the same "
         "matrices wrapped as instances for CI / DE (rows = ballots) and VI (rows = alternatives); large planted up to "
         "40x40 (positive: planted order "
         "certified by c1p_check; negative: an embedded Tucker submatrix certified by c1p_core + c1p_core_refuted_sound); instances: every "
@@ -29,7 +30,10 @@ RULE = ("matrices: exhaustive 0/1 matrices (quick <= 3x4 and 4x3, thorough <= 3x
         "7) from planted CI / CEI / VI / VEI / partition / 2-partition / forbidden-cycle / uniform generators with "
         "flips, repeated ballots, empty and full approval sets, unapproved alternatives, arbitrary labels in arbitrary "
         "insertion order, 1 or 2 categories; large planted instances 8 <= m, n <= 40 (witness check + planted "
-        "certificate; partition references run at every size); reorder_sets called directly on the duplicate-free "
+        "certificate; partition references run at every size); HISTORIES: one CategoricalInstance object, 3-6 calls of "
+        "interleaved recognisers with in-place edits of instance.preferences between the calls (ballot replaced, ballots "
+        "permuted, alternatives relabelled, cycle / interval profile written in; the number of ballots never changes), "
+        "each call judged on the current ballots; alternative ids include 0 and 10**18, 2**63, 2**64+1; reorder_sets called directly on the duplicate-free "
         "families of column sets of such matrices (all families from the exhaustive shapes, ~10 000 structured families (thorough 120 000) "
         "with 3-14 sets, 3 000 large ones up to 40 sets; list and dict-keys input): contract = sets_check / sets_decide; "
         "instance_to_ci_matrix compared through "
@@ -227,6 +231,40 @@ def _deep_matrix(rng, nr, nc, flips=None):
     return rows, (hidden if flips == 0 else None)
 
 
+def _wrap_matrix(rng, nr, nc, flips=0):
+    """a chain of overlapping intervals (Q-node) with nested intervals SHARING AN ENDPOINT with a chain member
+    (single-child wrappers that the grandparent has to merge, reversals), many rows; measured on a seeded change
+    of PQ.flatten: ~1e-3 hits per matrix with 9 rows, against ~4e-5 for uniform matrices"""
+    hidden = list(range(nc))
+    rng.shuffle(hidden)
+    s_ = rng.randrange(0, max(1, nc // 3))
+    e = min(nc - 1, s_ + rng.randint(2, 4))
+    ivs = [(s_, e)]
+    while e < nc - 1 and len(ivs) < max(2, nr // 2) and rng.random() < 0.8:
+        s2 = rng.randint(s_ + 1, e)
+        e2 = min(nc - 1, e + rng.randint(1, 3))
+        ivs.append((s2, e2))
+        s_, e = s2, e2
+    while len(ivs) < nr:
+        ps, pe = rng.choice(ivs)
+        k = rng.random()
+        if pe - ps >= 1 and k < 0.4:
+            ivs.append((ps, rng.randint(ps, pe - 1)))
+        elif pe - ps >= 1 and k < 0.8:
+            ivs.append((rng.randint(ps + 1, pe), pe))
+        else:
+            a = rng.randint(0, nc - 1)
+            ivs.append((a, rng.randint(a, nc - 1)))
+    rng.shuffle(ivs)
+    rows = [[0] * nc for _ in ivs]
+    for r, (a, b) in zip(rows, ivs):
+        for p_ in range(a, b + 1):
+            r[hidden[p_]] = 1
+    for _ in range(flips):
+        rows[rng.randrange(nr)][rng.randrange(nc)] ^= 1
+    return rows, (hidden if flips == 0 else None)
+
+
 def _uniform_matrix(rng, nr, nc):
     p = rng.choice([0.3, 0.4, 0.5])
     return [[int(rng.random() < p) for _ in range(nc)] for _ in range(nr)]
@@ -257,8 +295,20 @@ def _embed_core(rng, rows, nc):
     return ridx, cols
 
 
+_SPECIAL_IDS = [0, 10 ** 18, 2 ** 64 + 1, 2 ** 63, 10 ** 6]
+
+
 def _labels(rng, m):
-    return rng.sample(range(1, 60), m)
+    """m distinct alternative ids in arbitrary order; the id 0 (falsy) and huge ids are frequent"""
+    ids = rng.sample(range(0, 60), m)
+    if m and rng.random() < 0.5 and 0 not in ids:
+        ids[rng.randrange(m)] = 0
+    for k in range(m):
+        if rng.random() < 0.08:
+            x = rng.choice(_SPECIAL_IDS)
+            if x not in ids:
+                ids[k] = x
+    return ids
 
 
 def _subsets(alts):
@@ -437,7 +487,7 @@ def generate(tier, seed):
         else:
             rows, hidden = _deep_matrix(rng, nr, nc)
             out.append(_mcase(rows, nc, gen="deep5-7", **({"planted": hidden} if hidden is not None else {})))
-    nwide = 18000 if quick else 200000
+    nwide = 12000 if quick else 200000
     for i in range(nwide):                                       # 8-12 columns: witness check + planted certificate
         nr, nc = rng.randint(3, 8), rng.randint(8, 12)
         if i % 4 == 3:
@@ -445,6 +495,12 @@ def generate(tier, seed):
         else:
             rows, hidden = _deep_matrix(rng, nr, nc, flips=rng.choice([0, 0, 0, 1, 2]))
             out.append(_mcase(rows, nc, gen="deep8-12", big=1, **({"planted": hidden} if hidden is not None else {})))
+    nwrap_m = 12000 if quick else 150000
+    for i in range(nwrap_m):        # depth >= 2 wrappers: planted certificate / reference + check of every order
+        nr, nc = rng.randint(7, 10), rng.randint(6, 12)
+        rows, hidden = _wrap_matrix(rng, nr, nc, flips=i % 2)
+        tags = {"big": 1} if (nc > 7 or i % 4 > 1) else {}
+        out.append(_mcase(rows, nc, gen="wrap", **tags, **({"planted": hidden} if hidden is not None else {})))
     ntall = 15000 if quick else 150000
     for i in range(ntall):          # many rows, near misses: a false True always carries an invalid column order
         nr, nc = rng.randint(7, 10), rng.randint(5, 9)
@@ -480,8 +536,8 @@ def generate(tier, seed):
             nr, nc = rng.randint(3, 8), rng.randint(8, 14)
             rows, hidden = _deep_matrix(rng, nr, nc, flips=rng.choice([0, 0, 0, 1, 2]))
         elif kind == 4:
-            nr, nc = rng.randint(7, 10), rng.randint(5, 9)
-            rows, hidden = _deep_matrix(rng, nr, nc, flips=rng.choice([1, 2, 3]))
+            nr, nc = rng.randint(7, 10), rng.randint(6, 12)
+            rows, hidden = _wrap_matrix(rng, nr, nc, flips=rng.choice([0, 0, 1]))
         else:
             nr, nc = rng.randint(3, 8), rng.randint(4, 9)
             rows, hidden = _uniform_matrix(rng, nr, nc), None
@@ -495,7 +551,7 @@ def generate(tier, seed):
             rows, hidden = _deep_matrix(rng, nr, nc, flips=rng.choice([0, 0, 0, 1]))
         out.append(_rcase(rows, nc, hidden, form=i % 2, gen="fam-big"))
     # ---- (2) instances: exhaustive small ------------------------------------------------------------------
-    label_sets = {0: [], 1: [7], 2: [4, 2], 3: [5, 3, 9], 4: [6, 1, 8, 3]}
+    label_sets = {0: [], 1: [0], 2: [4, 0], 3: [5, 0, 2 ** 64 + 1], 4: [6, 10 ** 18, 0, 3]}
     for m in range(0, 4):
         alts = label_sets[m]
         subs = list(_subsets(alts))
@@ -530,6 +586,9 @@ def generate(tier, seed):
         nr, nc = rng.randint(3, 7), rng.randint(5, 12)
         if i % 5 == 4:
             rows, hidden = _uniform_matrix(rng, nr, nc), None
+        elif i % 5 in (2, 3):
+            nr = rng.randint(7, 9)
+            rows, hidden = _wrap_matrix(rng, nr, nc, flips=rng.choice([0, 0, 1]))
         else:
             rows, hidden = _deep_matrix(rng, nr, nc, flips=rng.choice([0, 0, 1, 2]))
         labels = _labels(rng, nc)
@@ -549,6 +608,39 @@ def generate(tier, seed):
         if hidden is not None:
             tags["planted"] = list(hidden)
         out.append(_icase("vi", alabels, vballots, **tags))
+    # ---- histories: ONE instance object, recognisers interleaved with in-place edits of instance.preferences
+    #      that keep the shape (same number of ballots and alternatives); every call is judged on the CURRENT ballots
+    nhist = 2500 if quick else 25000
+    for i in range(nhist):
+        alts, ballots, _pl = _rand_instance(rng, 6, 6)
+        n = len(ballots)
+        steps = []
+        cur = [list(b) for b in ballots]
+        for k in range(rng.randint(3, 6)):
+            if k > 0:
+                kind = rng.choice(["none", "replace", "replace", "permute", "relabel", "cycle", "interval"])
+                if kind == "replace":
+                    cur[rng.randrange(n)] = [a for a in alts if rng.random() < 0.5]
+                elif kind == "permute":
+                    rng.shuffle(cur)
+                elif kind == "relabel":
+                    sh = list(alts)
+                    rng.shuffle(sh)
+                    mp = dict(zip(alts, sh))
+                    cur = [[mp[a] for a in b] for b in cur]
+                elif kind == "cycle" and len(alts) >= 3 and n >= 3:
+                    tri = rng.sample(alts, 3)
+                    for j, (x, y) in zip(rng.sample(range(n), 3), [(0, 1), (1, 2), (0, 2)]):
+                        cur[j] = [tri[x], tri[y]]
+                elif kind == "interval":
+                    order = list(alts)
+                    rng.shuffle(order)
+                    cur = []
+                    for _ in range(n):
+                        a_ = rng.randrange(len(order))
+                        cur.append(order[a_: rng.randrange(a_, len(order)) + 1])
+            steps.append([DOMAINS.index(rng.choice(DOMAINS)), [list(b) for b in cur]])
+        out.append(case("c05.history", [list(alts), steps], ncat=1 + (i % 2), gen="history"))
     # ---- (3) large planted --------------------------------------------------------------------------------
     nbi = 40 if quick else 400
     for i in range(nbi):
@@ -615,9 +707,33 @@ def _run_matrix(nc, rows):
     return [int(bool(v)), order, iv_list, iv_np]
 
 
-def _run_domain(dom, alts, ballots, ncat):
+def _pref(alts, b, ncat):
+    return (tuple(b),) if ncat == 1 else (tuple(b), tuple(a for a in alts if a not in b))
+
+
+def _run_history(alts, steps, ncat):
+    inst = _instance(alts, steps[0][1], ncat)
+    prefs = inst.preferences                     # the same list object is edited in place throughout
+    out = []
+    for dom_i, ballots in steps:
+        assert len(ballots) == len(prefs)
+        for k, b in enumerate(ballots):
+            newp = _pref(alts, b, ncat)
+            if prefs[k] != newp:
+                prefs[k] = newp
+        inst.multiplicity = {}
+        for p_ in prefs:
+            inst.multiplicity[p_] = inst.multiplicity.get(p_, 0) + 1
+        inst.num_unique_preferences = len(set(prefs))
+        assert inst.preferences is prefs
+        out.append(_run_domain(DOMAINS[dom_i], alts, ballots, ncat, inst=inst))
+    return out
+
+
+def _run_domain(dom, alts, ballots, ncat, inst=None):
     from preflibtools.properties.subdomains.dichotomous import interval, singlecrossing, euclidean, partition
-    inst = _instance(alts, ballots, ncat)
+    if inst is None:
+        inst = _instance(alts, ballots, ncat)
     fn = {"ci": interval.is_candidate_interval, "cei": interval.is_candidate_extremal_interval,
           "vi": interval.is_voter_interval, "vei": interval.is_voter_extremal_interval,
           "wsc": singlecrossing.is_weakly_single_crossing, "de": euclidean.is_dichotomous_euclidean,
@@ -677,6 +793,8 @@ def impl(c):
     op, pl = c["op"], c["payload"]
     if op == "c05.reorder":
         return guarded(_run_reorder, pl[0], c["tags"].get("form", 0))
+    if op == "c05.history":
+        return guarded(_run_history, pl[0], pl[1], c["tags"].get("ncat", 2))
     if op == "c05.matrix":
         return guarded(_run_matrix, pl[0], pl[1])
     if op == "c05.cimat":
@@ -691,6 +809,14 @@ def _plan(c, r):
     op, pl, tags = c["op"], c["payload"], c["tags"]
     okres = isinstance(r, list) and len(r) == 2 and r[0] == 0
     plan = []
+    if op == "c05.history":
+        alts, steps = pl
+        for k, (dom_i, ballots) in enumerate(steps):
+            dom = DOMAINS[dom_i]
+            plan.append((("ref", k), "c05.%s_decide" % dom, [alts, ballots]))
+            if okres and k < len(r[1]) and r[1][k][0] == 1:
+                plan.append((("witness", k), "c05.%s_check" % dom, [alts, ballots, r[1][k][1]]))
+        return plan
     if op == "c05.reorder":
         fam = pl[0]
         if okres and r[1][0] == 2:
@@ -751,6 +877,20 @@ def judge(c, r, mres):
         return {"kind": "exception", "reason": "implementation raised: %s" % (txt,)}
     ans = {lb: m for (lb, _, _), m in zip(_plan(c, r), mres)}
     val = r[1]
+    if c["op"] == "c05.history":
+        steps = c["payload"][1]
+        if len(val) != len(steps):
+            return {"kind": "broken-correspondence", "reason": "history adapter returned %d results" % len(val)}
+        for k, (dom_i, ballots) in enumerate(steps):
+            dom = DOMAINS[dom_i]
+            if val[k][0] != ans[("ref", k)]:
+                return ("call %d (%s) on the same instance object after in-place edits: verdict %s, verified reference "
+                        "decider on the current ballots %r says %s"
+                        % (k + 1, dom, bool(val[k][0]), ballots, bool(ans[("ref", k)])))
+            if val[k][0] == 1 and ans.get(("witness", k)) != 1:
+                return ("call %d (%s) on the same instance object after in-place edits: witness %r rejected by the "
+                        "verified checker for the current ballots %r" % (k + 1, dom, val[k][1], ballots))
+        return None
     if c["op"] == "c05.cimat":
         if "mat" not in ans:
             return "instance_to_ci_matrix: not a 0/1 matrix of shape (ballots, alternatives): %r" % (val,)
@@ -796,6 +936,9 @@ def judge(c, r, mres):
 
 
 def _rows_of(c):
+    if c["op"] == "c05.history":
+        alts, steps = c["payload"]
+        return len(alts), [[int(a in b) for a in alts] for b in steps[-1][1]]
     if c["op"] == "c05.reorder":
         fam = c["payload"][0]
         nr = 1 + max([i for k in fam for i in k], default=-1)
@@ -812,6 +955,9 @@ def nontrivial(c, r, m):
 
 
 def _distinct_cols(c):
+    if c["op"] == "c05.history":
+        alts, steps = c["payload"]
+        return len({tuple(a in b for b in steps[-1][1]) for a in alts})
     if c["op"] == "c05.reorder":
         return len(c["payload"][0])
     if c["op"] == "c05.matrix":
@@ -828,6 +974,18 @@ def stats(c, r, m):
     tags = c["tags"]
     ref = "ref" if any(lb == "ref" for lb, _, _ in _plan(c, r)) else (
         "planted" if "planted" in tags else ("refuted-core" if "core" in tags else "witness-only"))
+    if c["op"] == "c05.history":
+        out_ = ["history calls=%d" % len(c["payload"][1])]
+        if isinstance(v, list) or v == "exc":
+            pass
+        if isinstance(r, list) and len(r) == 2 and r[0] == 0:
+            prev = None
+            for (dom_i, _b), res in zip(c["payload"][1], r[1]):
+                out_.append("history %s verdict=%s" % (DOMAINS[dom_i], res[0]))
+                if prev is not None and prev != res[0]:
+                    out_.append("history verdict changes between consecutive calls")
+                prev = res[0]
+        return out_
     if c["op"] == "c05.reorder":
         nf = len(c["payload"][0])
         return ["reorder_sets verdict=%s" % v, "reorder_sets %s" % ref,
@@ -847,6 +1005,11 @@ def stats(c, r, m):
 
 
 def describe(c):
+    if c["op"] == "c05.history":
+        return {"call": "one CategoricalInstance object; before each call instance.preferences is edited in place to "
+                        "the listed approval sets (same number of ballots)",
+                "alternatives_name keys": c["payload"][0],
+                "calls": [[DOMAINS[d], b] for d, b in c["payload"][1]], "categories": c["tags"].get("ncat", 2)}
     if c["op"] == "c05.reorder":
         return {"call": "reorder_sets(%s of tuples)" % ("list" if c["tags"].get("form", 0) == 0 else "dict keys"),
                 "sets": c["payload"][0]}
@@ -860,6 +1023,19 @@ def describe(c):
 
 def shrink(c):
     tags = {k: v for k, v in c["tags"].items() if k not in ("planted", "exh", "core")}
+    if c["op"] == "c05.history":
+        alts, steps = c["payload"]
+        for k in range(len(steps)):
+            if len(steps) > 1:
+                yield dict(c, payload=[alts, steps[:k] + steps[k + 1:]], tags=tags)
+        n = len(steps[0][1])
+        for j in range(n):
+            if n > 1:
+                yield dict(c, payload=[alts, [[d, b[:j] + b[j + 1:]] for d, b in steps]], tags=tags)
+        for a in alts:
+            yield dict(c, payload=[[x for x in alts if x != a],
+                                   [[d, [[x for x in bb if x != a] for bb in b]] for d, b in steps]], tags=tags)
+        return
     if c["op"] == "c05.reorder":
         fam = c["payload"][0]
         for i in range(len(fam)):
@@ -896,6 +1072,7 @@ def shrink(c):
 
 THEOREMS_FOR_OP = {
     "c05.matrix": "c1p_decide_correct, c1p_check_correct", "c05.cimat": "ci_reduction",
+    "c05.history": "X_decide_correct, X_check_correct (each call judged on the current ballots)",
     "c05.reorder": "sets_decide_correct, sets_check_correct (reorder_contract -> solve_model_correct, isC1P_model_correct)",
     "c05.ci": "ci_decide_correct, ci_check_correct", "c05.cei": "cei_decide_correct, cei_check_correct",
     "c05.vi": "vi_decide_correct, vi_check_correct", "c05.vei": "vei_decide_correct, vei_check_correct",
